@@ -237,6 +237,8 @@ theorem optBitmap_fwd : ∀ (fields : List Field) (fs : List Val) (bm : Bits), f
       simp only [List.zip_cons_cons, List.all_cons, List.filterMap_cons]
       by_cases ho : fd.params.optional = true
       · simp only [ho, if_true] at h ⊢
+        split at h
+        · simp [Aper.panic] at h
         cases hr : optBitmap frest vs with
         | error e => rw [hr] at h; simp at h
         | ok b' =>
@@ -1197,6 +1199,8 @@ theorem optBitmap_nonempty : ∀ (fields : List Field) (fs : List Val) (bm : Bit
       simp only [optBitmap] at h
       by_cases ho : fd.params.optional = true
       · simp only [ho, if_true] at h
+        split at h
+        · simp [Aper.panic] at h
         cases hr : optBitmap frest vs with
         | error e => rw [hr] at h; simp at h
         | ok b' =>
